@@ -391,7 +391,7 @@ func (rt *runtimeS) pipeOf(conn int, dir string) *pipe {
 		}
 		return rt.srvs[conn].link.s2c
 	}
-	panic("bad dir " + dir)
+	panic("verif-harness: bad dir " + dir)
 }
 
 func (rt *runtimeS) defaults() {
@@ -504,7 +504,15 @@ func (rt *runtimeS) step(st Step) {
 			n = 1
 		}
 		p := rt.pipeOf(conn, st.Dir)
-		p.with(func() { p.credits += n })
+		p.with(func() {
+			if st.N < 0 { // -1: everything queued now; -2: all but the last
+				n = len(p.q) + st.N + 1 - p.credits
+				if n < 0 {
+					n = 0
+				}
+			}
+			p.credits += n
+		})
 	case "auto":
 		p := rt.pipeOf(conn, st.Dir)
 		p.with(func() { p.auto = st.On })
@@ -532,7 +540,7 @@ func (rt *runtimeS) step(st Step) {
 			tr.emit(e)
 			rt.srv.Stop()
 		default:
-			panic("unknown fault " + st.What)
+			panic("verif-harness: unknown fault " + st.What)
 		}
 	case "arm":
 		rt.g.arm(st.Gate, st.Id, st.N)
@@ -550,7 +558,7 @@ func (rt *runtimeS) step(st Step) {
 	case "wait":
 	default:
 		if !rt.stepExtra(st) {
-			panic("unknown op " + st.Op)
+			panic("verif-harness: unknown op " + st.Op)
 		}
 	}
 }
